@@ -59,6 +59,9 @@ pub struct Knobs {
     pub yield_long_ppm: u32,
     /// explicit list of yield sites forced active (in addition to the percentage draw)
     pub yield_force: Vec<String>,
+    /// probability (ppm) that a task poll starts with most of tokio's cooperative budget already spent,
+    /// so that one of its next few operations on a tokio resource (lock, channel, notify, timer) yields
+    pub budget_ppm: u32,
     /// default transport parameters for pipes created by the simulated network
     pub pipe: crate::pipe::PipeCfg,
 }
@@ -71,6 +74,7 @@ impl Default for Knobs {
             yield_ppm: 0,
             yield_long_ppm: 0,
             yield_force: Vec::new(),
+            budget_ppm: 0,
             pipe: crate::pipe::PipeCfg::default(),
         }
     }
